@@ -143,14 +143,22 @@ theorem fromBytes_shape (w : WTypes) (d : Decoded) (h : fromBytes w = .ok d) :
     · cases h
     · cases h
 
-/-- **the decoded world denotes the component's type**, resource leaves renamed by the final
-resource map -/
-theorem fromBytes_tree (w : WTypes) (d : Decoded) (root : WComp) (t : Tree) (hn : NamesOk w)
+/-- **decode_lists_exact, strengthened to trees**: the decoded world lists the converted imports and
+exports of the component — same names, same order — and every item denotes (in the decoded
+collection, with the default fuel of `unfold`) the tree of the validator's item, resource leaves
+renamed by an injective `ρ`; the resource ids cached by the converter are the leaves `ρ base`. -/
+theorem fromBytes_lists (w : WTypes) (d : Decoded) (root : WComp) (hn : NamesOk w)
     (hroot : w.comps[w.root]? = some root)
     (hi : (root.imports.map (·.1)).Nodup) (he : (root.exports.map (·.1)).Nodup)
-    (h : fromBytes w = .ok d) (ht : treeW w = some t) :
-    ∃ ρ : Nat → Res, (∀ a b, (ρ a).idx = (ρ b).idx → a = b) ∧
-      d.types.unfold (.component d.world) = some (renT ρ t) := by
+    (h : fromBytes w = .ok d) :
+    ∃ (ρ : Nat → Res) (st : St) (imports exports : List (Str × ItemKind)),
+      (∀ a b, (ρ a).idx = (ρ b).idx → a = b) ∧
+      (∃ st0, topItems w w.fuel {} root.imports = .ok (st0, imports) ∧
+        topItems w w.fuel st0 root.exports = .ok (st, exports)) ∧
+      Ext [] [] st.types d.types ∧ Inv w ρ [] [] 0 st ∧
+      d.types.fuel = (Types.size st.types + 3) + 1 ∧
+      d.types.worlds[d.world]? = some { id := none, uses := [], imports := imports, exports := exports } ∧
+      All2 (NK w ρ [] [] 0 st) root.imports imports ∧ All2 (NK w ρ [] [] 0 st) root.exports exports := by
   obtain ⟨root', st, st', imports, exports, hroot', himp, hexp, hworld, _, htypes⟩ := fromBytes_shape w d h
   rw [hroot] at hroot'; cases hroot'
   let ρ := rhoOf st'
@@ -161,12 +169,37 @@ theorem fromBytes_tree (w : WTypes) (d : Decoded) (root : WComp) (t : Tree) (hn 
   obtain ⟨p2, r2⟩ := k2 p1 hc2
   have r1' : All2 (NK w ρ [] [] 0 st') root.imports imports :=
     All2.imp (fun x y hxy => ⟨hxy.1, hxy.2.mono f2⟩) r1
-  refine ⟨ρ, rhoOf_inj p2.1, ?_⟩
   have hci : collectMap imports = imports :=
     collectMap_nodup _ (by rw [All2_named_fst r1']; exact hi)
   have hce : collectMap exports = exports :=
     collectMap_nodup _ (by rw [All2_named_fst r2]; exact he)
-  -- the specification side
+  have hext : Ext [] [] st'.types d.types := by
+    rw [htypes]
+    refine ⟨rfl, fun _ _ h => h, fun _ _ h => h, fun _ _ h => h, fun _ x h => ⟨x, h, rfl, rfl⟩, ?_, ?_⟩
+    · intro i y _ h
+      exact ⟨y, getElem?_append_lt' _ _ _ _ h, rfl⟩
+    · intro i y _ h
+      exact ⟨y, getElem?_append_lt' _ _ _ _ h, rfl, rfl⟩
+  have hfuel : d.types.fuel = (Types.size st'.types + 3) + 1 := by
+    rw [htypes]
+    simp [Types.fuel, Types.size]; omega
+  have hwd : d.types.worlds[d.world]? =
+      some { id := none, uses := [], imports := imports, exports := exports } := by
+    rw [htypes, hworld, hci, hce]
+    simp
+  exact ⟨ρ, st', imports, exports, rhoOf_inj p2.1, ⟨st, himp, hexp⟩, hext, p2.1, hfuel, hwd, r1', r2⟩
+
+/-- **the decoded world denotes the component's type**, resource leaves renamed by the final
+resource map -/
+theorem fromBytes_tree (w : WTypes) (d : Decoded) (root : WComp) (t : Tree) (hn : NamesOk w)
+    (hroot : w.comps[w.root]? = some root)
+    (hi : (root.imports.map (·.1)).Nodup) (he : (root.exports.map (·.1)).Nodup)
+    (h : fromBytes w = .ok d) (ht : treeW w = some t) :
+    ∃ ρ : Nat → Res, (∀ a b, (ρ a).idx = (ρ b).idx → a = b) ∧
+      d.types.unfold (.component d.world) = some (renT ρ t) := by
+  obtain ⟨ρ, st', imports, exports, hinj, _, hext, _, hfuel, hwd, r1', r2⟩ :=
+    fromBytes_lists w d root hn hroot hi he h
+  refine ⟨ρ, hinj, ?_⟩
   unfold treeW at ht
   obtain ⟨g', hg⟩ := entTree_pos ht
   rw [hg] at ht
@@ -174,21 +207,6 @@ theorem fromBytes_tree (w : WTypes) (d : Decoded) (root : WComp) (t : Tree) (hn 
   split at ht
   · rename_i a b ha hb
     cases ht
-    -- the decoded side
-    have hext : Ext [] [] st'.types d.types := by
-      rw [htypes]
-      refine ⟨rfl, fun _ _ h => h, fun _ _ h => h, fun _ _ h => h, fun _ x h => ⟨x, h, rfl, rfl⟩, ?_, ?_⟩
-      · intro i y _ h
-        exact ⟨y, getElem?_append_lt' _ _ _ _ h, rfl⟩
-      · intro i y _ h
-        exact ⟨y, getElem?_append_lt' _ _ _ _ h, rfl, rfl⟩
-    have hfuel : d.types.fuel = (Types.size st'.types + 3) + 1 := by
-      rw [htypes]
-      simp [Types.fuel, Types.size]; omega
-    have hwd : d.types.worlds[d.world]? =
-        some { id := none, uses := [], imports := imports, exports := exports } := by
-      rw [htypes, hworld, hci, hce]
-      simp
     have hb' : bnd 0 st' + 2 ≤ Types.size st'.types + 3 := by unfold bnd; omega
     have h1 := entTrees_fact r1' g' a ha d.types _ hext hb'
     have h2 := entTrees_fact r2 g' b hb d.types _ hext hb'
